@@ -109,7 +109,7 @@ def reference_roots(co):
     a3, a2, a1, a0 = co
     A = [Fr(v) for v in co]
     try:
-        B = 1.0 + max(abs(a2 / a3), abs(a1 / a3), abs(a0 / a3))
+        B = 2.0 * (1.0 + max(abs(a2 / a3), abs(a1 / a3), abs(a0 / a3)))   # twice Cauchy's bound
     except (OverflowError, ZeroDivisionError):
         return None
     if not finite(B):
@@ -206,8 +206,7 @@ def in_domain(co):
     if not all(finite(c) for c in co) or abs(a3) < 1e-290 or any(abs(c) > 1e290 for c in co):
         return False
     for c in co[1:]:
-        r = abs(c / a3)
-        if r != 0 and not (1e-40 <= r <= 1e40):
+        if c != 0 and not (1e-40 <= abs(c / a3) <= 1e40):
             return False
     return True
 
